@@ -208,6 +208,7 @@ def check(m, run):
         check_pivot(m, run, piv)
     pv2(m, run, piv)
     pv5(m, run, piv)
+    _sdp.la4(m, run)       # determinant, inverse and pivoted solve on every non-singular 0/1 matrix up to 3 x 3, exactly
     run.floor('PV2.pivot-companion', 3, 'matrix_inverse, matrix_determinant, lu_factor')
     # the LU kernels are decided exactly on symbolic matrices (LA3); the rule that reads how lu_factor spells the permutation corroborates
     from .. import skel_drivers as _sd
